@@ -321,6 +321,86 @@ pub fn run_case(c: &Case, path: &std::path::Path, st: &mut BTreeMap<String, u64>
     }
 }
 
+/// One uncommitted leaf with more entries than fit in 16 bits: a fresh bucket receives 70 000 pairs in
+/// a single transaction (nothing is split before commit), and point lookups, seeks, ranges, a delete and
+/// a full scan at positions on both sides of 65 536 must agree with the model inside that transaction.
+pub fn huge_leaf_case(path: &std::path::Path, st: &mut BTreeMap<String, u64>) -> Result<(), (String, String)> {
+    crate::report::progress();
+    let _ = std::fs::remove_file(path);
+    let n: usize = 70_000;
+    let key = |i: usize| format!("h{:06}", i).into_bytes();
+    let res = util::catch(|| -> Result<(), (String, String)> {
+        let e = |w: &str, e: jammdb::Error| ("live:setup".to_string(), format!("{}: {}", w, e));
+        let bad = |what: &str, d: String| Err((format!("live:huge-leaf:{}", what), d));
+        let db = OpenOptions::new().pagesize(4096).num_pages(64).open(path).map_err(|x| e("open", x))?;
+        let tx = db.tx(true).map_err(|x| e("tx", x))?;
+        let b = tx.create_bucket("huge").map_err(|x| e("create", x))?;
+        for i in 0..n {
+            b.put(key(i), (i as u32).to_le_bytes().to_vec()).map_err(|x| e("put", x))?;
+            if i % 4096 == 0 {
+                crate::report::progress();
+            }
+        }
+        let probe: Vec<usize> = vec![0, 1, 255, 256, 32767, 32768, 65534, 65535, 65536, 65537, 65546, 66000, n - 2, n - 1];
+        for &i in &probe {
+            let got = b.get_kv(key(i)).map(|kv| (kv.key().to_vec(), kv.value().to_vec()));
+            if got != Some((key(i), (i as u32).to_le_bytes().to_vec())) {
+                return bad("get", format!("get_kv(entry #{}) returned {:?}", i, got.map(|(k, _)| util::show(&k))));
+            }
+            let mut c = b.cursor();
+            if !c.seek(key(i)) {
+                return bad("seek", format!("seek(entry #{}) says the key does not exist", i));
+            }
+            let first = c.next().map(|d| item(&d).0);
+            if first != Some(key(i)) {
+                return bad("seek", format!("iteration after seek(entry #{}) starts at {:?}", i, first.map(|k| util::show(&k))));
+            }
+            let k0 = key(i);
+            let r: Vec<Vec<u8>> = b.range(k0.as_slice()..).take(3).map(|d| item(&d).0).collect();
+            let want: Vec<Vec<u8>> = (i..n.min(i + 3)).map(key).collect();
+            if r != want {
+                return bad("range", format!("range(entry #{}..) starts with {:?}", i, r.iter().map(|k| util::show(k)).collect::<Vec<_>>()));
+            }
+        }
+        // a delete beyond position 65 536 removes that pair and nothing else
+        let del = 65_546usize;
+        let d = b.delete(key(del)).map(|kv| kv.key().to_vec()).map_err(|x| ("live:huge-leaf:delete".to_string(), format!("{}", x)))?;
+        if d != key(del) {
+            return bad("delete", format!("delete(entry #{}) returned the pair of {}", del, util::show(&d)));
+        }
+        let mut count = 0usize;
+        let mut expect = 0usize;
+        for d in b.cursor() {
+            if expect == del {
+                expect += 1;
+            }
+            let k = item(&d).0;
+            if k != key(expect) {
+                return bad("scan", format!("full scan: entry #{} is {} instead of {}", count, util::show(&k), util::show(&key(expect))));
+            }
+            count += 1;
+            expect += 1;
+        }
+        if count != n - 1 {
+            return bad("scan", format!("full scan yields {} entries, model {}", count, n - 1));
+        }
+        drop(b);
+        tx.commit().map_err(|x| ("live:huge-leaf:commit".to_string(), format!("{}", x)))?;
+        let tx = db.tx(false).map_err(|x| e("tx", x))?;
+        let b = tx.get_bucket("huge").map_err(|x| e("get", x))?;
+        if b.cursor().count() != n - 1 || b.get(key(del)).is_some() || b.get(key(65_536)).is_none() {
+            return bad("after-commit", "contents after commit differ from the model".into());
+        }
+        *st.entry("live_huge_leaf_entries".into()).or_insert(0) += n as u64;
+        Ok(())
+    });
+    let _ = std::fs::remove_file(path);
+    match res {
+        Ok(r) => r,
+        Err(p) => Err((format!("live:huge-leaf:{}", util::panic_signature(&p)), format!("panic at {}:{}: {}", p.file, p.line, p.msg))),
+    }
+}
+
 pub fn run(ctx: &Ctx, shard: &mut Shard) {
     let scratch = Scratch::new("C07live");
     let path = scratch.fresh("live");
@@ -348,6 +428,14 @@ pub fn run(ctx: &Ctx, shard: &mut Shard) {
             Ok(()) => {}
             Err((sig, d)) if sig == "live:setup" => shard.inconclusive(d),
             Err((sig, d)) => shard.violation(ctx, &sig, &d, &serde_json::json!({"kind": "live", "live": c})),
+        }
+    }
+    if ctx.shard == 5 % ctx.nshards {
+        shard.evaluations += 1;
+        match huge_leaf_case(&path, &mut st) {
+            Ok(()) => {}
+            Err((sig, d)) if sig == "live:setup" => shard.inconclusive(d),
+            Err((sig, d)) => shard.violation(ctx, &sig, &d, &serde_json::json!({"kind": "live-huge-leaf"})),
         }
     }
     for (k, v) in st {
